@@ -168,7 +168,7 @@ impl LangInterpreter for English {
             .iter()
             .enumerate()
             .filter_map(|(i, t)| {
-                if !t.text_lowercase().chars().all(|c| c.is_ascii_whitespace()) {
+                if !t.text_lowercase().chars().all(|c| c.is_whitespace()) {
                     Some(i)
                 } else {
                     None
